@@ -421,9 +421,15 @@ func (s *S) logRegistry() {
 	simrt.Event("registry now lists %v", l)
 }
 
+// activeNow: the rotation is what the selectors route over. (The manager also keeps a list,
+// activeEp, which it updates separately; for up to one status-check interval it can name an
+// endpoint the selectors no longer contain. Judging by the list made a call that the
+// all-blocked fallback sent to a random endpoint look like a premature probe: thorough tier,
+// 1 run in 100 000.)
 func (s *S) activeNow() []string {
 	var a []string
-	for _, e := range tars.VerifActive(s.prx) {
+	l, _ := tars.VerifModHashState(s.prx)
+	for _, e := range l {
 		a = append(a, e.Host)
 	}
 	sort.Strings(a)
